@@ -31,7 +31,7 @@ def info(tier):
         "CompiledExpression.gradient output at 3 regular points vs the jet reference; non-trivial = >=2 operator "
         "nodes in total; distinct = canonical (recipes, V) hashes",
         "required_cells": [f"{fam}|{v}|m=1" for fam, _ in X.directed_families() for v in X.VRELS]
-        + [f"m={m}|{v}" for m in (2, 4) for v in X.VRELS] + [f"shared-subexpressions|{v}" for v in X.VRELS],
+        + [f"m={m}|{v}" for m in (2, 4) for v in X.VRELS] + [f"shared-subexpressions|{v}" for v in X.VRELS] + [f"deep-unary:{f}" for f in R.FUNCS],
         "assumptions": ["regular points only (margin >= 1e-2)", "jet reference validated by selftest"],
     }
 
@@ -261,6 +261,32 @@ def run(ctx, rec):
                     if c is not None:
                         c["share"] = True
                         run_case(c, rec)
+    # term-by-term accumulations beyond the switch depth, one per unary function (the iterative differentiator's own chain rules)
+    for k, f in enumerate(R.FUNCS):
+        i += 1
+        if not ctx.mine(i):
+            continue
+        a_, b_ = ["var", "a"], ["var", "b"]
+
+        def arg(t):
+            v = a_ if t % 2 == 0 else b_
+            if f in ("log", "log2", "log10", "sqrt", "acosh"):
+                return ["bin", "+", ["bin", "*", v, v], ["raw", 1.5 + 0.01 * (t % 5), "float"]]
+            if f in ("asin", "acos", "atanh"):
+                return ["bin", "*", ["fn", "tanh", v], ["raw", 0.9, "float"]]
+            return ["bin", "*", v, ["raw", 0.5 + 0.01 * (t % 5), "float"]]
+
+        node = ["bin", "*", ["raw", 0.01, "float"], ["fn", f, arg(0)]]
+        for t in range(1, 404 + k % 3):
+            node = ["bin", "+-"[t % 2], node, ["bin", "*", ["raw", 0.01, "float"], ["fn", f, arg(t)]]]
+        try:
+            c = make_case(rng, X.D0, [node], X.VRELS[k % 4], "deep-unary")
+        except (R.ShapeError, R.OutOfModel):
+            c = None
+        if c is not None:
+            c["family"] = "deep-unary"
+            run_case(c, rec)
+            rec.cmp(1, "deep-unary:" + f)
     # numerically special data (tiny-scale coefficient arrays, constants near 0 / 1, exponents near integers)
     for k, (fam, node, inv) in enumerate(X.special_families()):
         for vrel in ("exact", "superset_permuted"):
